@@ -26,6 +26,11 @@ type c05RT struct {
 	Seed   string   `json:"seed_hex"`
 	Path   []uint32 `json:"path"`
 	Public bool     `json:"public"`
+	// Earlier: a string parsed in the same process BEFORE the key's own string is parsed back: "twin"
+	// = the same key material under another identity (public: the other Y parity; private: another
+	// network's version bytes), "self" = the very same string.  What a parse returns must not depend
+	// on what was parsed before.
+	Earlier string `json:"parsed_first,omitempty"`
 }
 
 func c05EvalRoundTrip(w *mc.W, cas c05RT) {
@@ -55,6 +60,32 @@ func c05EvalRoundTrip(w *mc.W, cas c05RT) {
 		}
 		if want := x.String(refNet(cas.Net)); s != want {
 			fail("produced-string-differs-from-bip32", fmt.Sprintf("got %s want %s", s, want))
+		}
+		if cas.Earlier != "" {
+			es := s
+			if cas.Earlier == "twin" {
+				rn := refNet(cas.Net)
+				v := rn.HDPriv
+				if cas.Public {
+					v = rn.HDPub
+				}
+				pl := x.Payload(v)
+				if cas.Public {
+					pl[45] ^= 0x01 // 02 <-> 03: the negated point, a valid key of its own
+				} else {
+					other := refNet("testnet3").HDPriv
+					if cas.Net == "testnet3" {
+						other = refNet("mainnet").HDPriv
+					}
+					copy(pl[:4], other[:])
+				}
+				ck := ref.DoubleSHA256(pl)
+				es = ref.B58Encode(append(pl, ck[:4]...))
+			}
+			if ek, err := hdkeychain.NewKeyFromString(es); err == nil && ek != nil {
+				ek.Child(0) // use it, so that whatever it memoises is filled in
+				defer ek.IsPrivate()
+			}
 		}
 		k2, err := hdkeychain.NewKeyFromString(s)
 		if err != nil {
@@ -177,6 +208,29 @@ func runC05(c *mc.Ctx) {
 	c.Rule("round trip of every key of a derivation tree; for 6 base keys every single-bit flip and every single-byte substitution of the 82 decoded bytes (checksum not fixed => must be rejected), every single-bit flip with recomputed checksum, boundary scalars, every key-type byte x {on-curve, off-curve, >=p} X, lengths 77..79/81..83, leading-'1' variants; acceptance must equal the reference validity predicate and accepted strings must re-serialise to themselves; non-trivial = accepted mutated strings and leading-zero scalars")
 	c.Assume("reference secp256k1 / Base58 / double-SHA256 models are correct")
 
+	// ---- round trips of keys that nothing else in this run parses, each after its twin / itself was
+	// parsed first; run first and sequentially, so that a process-wide cache inside the parser is in
+	// the state these cases are about
+	{
+		var first []c05RT
+		for i, idx := range []uint32{0, 1, 2, 3, 1 << 31, 1<<31 + 1, 1<<31 + 2, 1<<31 + 3} {
+			for _, pub := range []bool{true, false} {
+				e := "twin"
+				if i%4 == 3 {
+					e = "self"
+				}
+				first = append(first, c05RT{Net: []string{"mainnet", "testnet3"}[i%2], Seed: bip32Vectors[1].seed, Path: []uint32{idx}, Public: pub, Earlier: e})
+			}
+		}
+		c.Space("round trips after a twin (other Y parity / other network) or the same string was parsed first", int64(len(first)))
+		w := c.Worker()
+		for _, rt := range first {
+			w.State()
+			c05EvalRoundTrip(w, rt)
+		}
+		w.Done()
+		c.Sample("rt", first[0])
+	}
 	// ---- round trips
 	var rts []c05RT
 	seeds := []string{bip32Vectors[0].seed, bip32Vectors[2].seed}
@@ -275,6 +329,7 @@ func runC05(c *mc.Ctx) {
 				m := []byte(str)
 				m[pos] = byte(v)
 				raws = append(raws, c05Raw{StrHex: mc.Hex(m), Why: "one character of the string replaced by another byte value"})
+				raws = append(raws, c05Raw{StrHex: mc.Hex([]byte(str[:pos] + string([]byte{byte(v)}) + str[pos:])), Why: "one byte inserted into the string"})
 			}
 		}
 		// (a) no checksum fix: single-bit flips, single-byte substitutions
